@@ -271,7 +271,7 @@ def verify_unit(name, seed=None, rlimit=None, items=None, mutate=None, keep=True
             # alternatives, narrowest first (wide = 1, 2, ...)
             bw = bw[min(int(wide), len(bw)) - 1]
         unit["_wide"] = {fn: list(bw) for fn in wide_fns}
-        unit["timeout"] = unit.get("wide_timeout", 240)
+        unit["timeout"] = unit.get("wide_timeout", 120)
     out, info = assemble(unit, items=items, twin=twin)
     if mutate:
         mutate(out)
